@@ -92,6 +92,14 @@ pub open spec fn token_bits_c(c: Codes, t: PreflateToken) -> Seq<bool> {
         }
     }
 }
+/// every symbol the token needs exists in the code (is below the number of code lengths)
+pub open spec fn tok_syms_ok(c: Codes, t: PreflateToken) -> bool {
+    match t {
+        PreflateToken::Literal(l) => (l as int) < c.ll.len(),
+        PreflateToken::Reference(r) => (if r.irregular258 { 284 } else { 257 + len_code(ref_len(r)) }) < c.ll.len()
+            && dist_code(r.dist as u32) < c.dl.len(),
+    }
+}
 pub open spec fn tokens_bits_c(c: Codes, ts: Seq<PreflateToken>) -> Seq<bool>
     decreases ts.len()
 {
